@@ -510,6 +510,61 @@ fn binary_slice(ctx: &mut Ctx) {
         }
     }
     let _ = std::fs::remove_file(&log);
+    if ctx.shard == 0 {
+        delimiter_option_slice(ctx);
+    }
+}
+
+/// The -d operand through the real option parser: the input must be split at exactly the byte
+/// (sequence) the operand names and nowhere else — or the operand refused and nothing run.
+fn delimiter_option_slice(ctx: &mut Ctx) {
+    use std::io::Write;
+    let vrec = crate::engine::self_bin_dir().join("vrec");
+    let log = ctx.sbx.join(".mc-vrec.log");
+    // (operand, delimiter bytes it names)
+    let cases: [(&str, &[u8]); 10] = [(",", b","), ("\\n", b"\n"), ("\\0", b"\0"), ("\\00", b"\0"), ("\\x2c", b","), ("\\054", b","), ("\\t", b"\t"), ("\u{e9}", "\u{e9}".as_bytes()), ("\u{e0}", "\u{e0}".as_bytes()), ("ab", b"ab")];
+    for (operand, delim) in cases {
+        // (a NUL can only be in the input when it is the delimiter: it cannot be part of an argument)
+        let input: Vec<u8> = format!("one\u{e9}tw\u{e0}o,thr\u{e9}e\tfo ur\nfi'v\"e{}si\\x ab seven", if delim == b"\0" { "\0" } else { ";" }).into_bytes();
+        let _ = std::fs::remove_file(&log);
+        let args: Vec<&std::ffi::OsStr> = vec![std::ffi::OsStr::new("-d"), std::ffi::OsStr::new(operand), vrec.as_os_str(), log.as_os_str()];
+        let (code, _o, err) = crate::xargsrun::run_xargs_bin(&args, &ctx.sbx, &[], &mut |si| {
+            let _ = si.write_all(&input);
+        });
+        ctx.rep.evaluations += 1;
+        ctx.rep.nontrivial += 1;
+        let got: Vec<Vec<u8>> = crate::vreclog::read(&log).unwrap_or_default().into_iter().flat_map(|r| r.args).collect();
+        // reference split at the full delimiter sequence, empty fields dropped or kept (both accepted)
+        let mut want: Vec<Vec<u8>> = vec![];
+        let mut cur: Vec<u8> = vec![];
+        let mut i = 0;
+        while i < input.len() {
+            if input[i..].starts_with(delim) {
+                want.push(std::mem::take(&mut cur));
+                i += delim.len();
+            } else {
+                cur.push(input[i]);
+                i += 1;
+            }
+        }
+        want.push(cur);
+        let nonempty = |v: &Vec<Vec<u8>>| v.iter().filter(|a| !a.is_empty()).cloned().collect::<Vec<_>>();
+        let refused = code != Ok(0) && got.is_empty();
+        // `\0` alone: GNU reads it as NUL, the repository's own unit test pins it as an error and the
+        // statement only speaks of "-d C", so both outcomes are accepted (never a different byte).
+        let may_refuse = delim.len() > 1 || operand == "\\0";
+        let ok = refused && may_refuse || code == Ok(0) && nonempty(&got) == nonempty(&want);
+        if !ok {
+            ctx.rep.violation(
+                if delim.len() > 1 { "C05 -d with an operand longer than one byte is neither refused nor honoured as a whole" } else { "C05 -d OPERAND does not split at exactly the byte the operand names" },
+                format!("xargs -d {operand:?} on {:?}: status {:?} stderr {:?}\n argv {:?}\n expected {:?}{}", show(&input), code, String::from_utf8_lossy(&err), got.iter().map(|b| show(b)).collect::<Vec<_>>(), want.iter().map(|b| show(b)).collect::<Vec<_>>(), if may_refuse { " (or the operand refused and nothing run)" } else { "" }),
+                json!({"prop":"C05","binary":true,"input":input}),
+            );
+        } else {
+            ctx.rep.traces_validated += 1;
+        }
+    }
+    let _ = std::fs::remove_file(&log);
 }
 
 fn replay(case: &Value, ctx: &mut Ctx) -> Option<String> {
